@@ -577,6 +577,25 @@ func replayFile(line []byte, a *Acc) {
 			}
 		}
 	}
+	// a damaged JSON file: the brace that opens the second document replaced by a closing one -- the scanner meets a
+	// closing brace outside any object: the Maps read so far and an error (never silence)
+	if l.Mode == "json" && l.ID.Cut == 0 && len(l.Docs) >= 2 {
+		data := []byte(l.ID.Text)
+		first, _ := mxj.NewMapJson(data[l.Docs[0].S-1 : l.Docs[0].E])
+		data[l.Docs[1].S-1] = '}'
+		name := filepath.Join(dir, "damaged")
+		os.WriteFile(name, data, 0o644)
+		ncases++
+		var ms mxj.Maps
+		var mr []mxj.MapRaw
+		var e1, e2 error
+		if p := guard(func() { ms, e1 = mxj.NewMapsFromJsonFile(name); mr, e2 = mxj.NewMapsFromJsonFileRaw(name) }); p != "" {
+			a.Mis("file:json:damaged-panic", p, l)
+		} else if e1 == nil || e2 == nil || len(ms) != 1 || len(mr) != 1 || canonOrNil(ms[0]) != canonOrNil(first) || canonOrNil(mr[0].M) != canonOrNil(first) {
+			a.Mis("file:json:damaged", fmt.Sprintf("file %q: NewMapsFromJsonFile returned %d Maps (err %v), NewMapsFromJsonFileRaw %d (err %v); expected the first document %s and an error",
+				data, len(ms), e1, len(mr), e2, canonOrNil(first)), l)
+		}
+	}
 	// unreadable files: error, no panic
 	for _, bad := range []string{filepath.Join(dir, "missing"), dir} {
 		if p := guard(func() {
@@ -757,6 +776,15 @@ func replayFileRT(line []byte, a *Acc) {
 				// same rendering, yet not deeply equal: an empty list that became a nil list, a changed number type, ...
 				one("filert:copy-not-deep-equal", fmt.Sprintf("Copy of %s renders the same but is not reflect.DeepEqual to the original: %#v vs %#v", orig[i], cp, m))
 			}
+		}
+	}
+	// Copy is the identity on every float64: integral values beyond 2^53, whose JSON text is not their exact value
+	{
+		big := mxj.Map{"n": float64(1 << 62), "l": []interface{}{1e18, 1234567890123456789.0, float64(1<<53) + 2, map[string]interface{}{"m": float64(1 << 60)}}}
+		cp, cerr := big.Copy()
+		cases++
+		if cerr != nil || !reflect.DeepEqual(map[string]interface{}(cp), map[string]interface{}(big)) {
+			a.Mis("filert:copy-big-floats", fmt.Sprintf("Copy of %#v gave %#v (%v)", big, cp, cerr), filertLine{F: "filert"})
 		}
 	}
 	a.Count(cases, cases)
